@@ -26,6 +26,13 @@ PROPS = {
         "trusted": ["'conventional' = result under policy None (which still runs the interval pass)"],
         "assumptions": COMMON_ASSUME,
     },
+    "C11": {
+        "level": "proof",
+        "units": ["h2t", "ptdt"],
+        "rule": "falsifier: each rounding mode vs mode None - through the hook for every second of the day at mid-second (stride 11 s quick, every second thorough) x 6 prayers x 3 modes plus edges and +-24 h offsets, and through the public API with prayers slid to 23:59:xx / xx:59:xx; non-trivial = distinct (prayer, mode, unrounded second)",
+        "trusted": ["theorems are over the reals: doubles within 1 ulp of a second/minute boundary are outside them (correspondence uses mid-second points; exact-second points are exercised by the unit `h2t`)"],
+        "assumptions": COMMON_ASSUME,
+    },
     "C14": {
         "level": "proof",
         "units": ["daterange", "civil"],
